@@ -259,3 +259,103 @@ theorem endPos_of_closing {cc cp : List Bytes} (hn : allClose cc cp = true) {t :
   exact hr (c ++ r)
 
 end LolHtml.Lemmas.EscComment
+
+/-! ## The comment token's data is the inserted text -/
+namespace LolHtml.Lemmas.EscComment
+open LolHtml LolHtml.Model.Esc LolHtml.Spec.Esc LolHtml.Spec.Esc.CommentEnd
+
+/-- Bytes consumed by a state but not yet appended to the comment data. -/
+def pend : State → Bytes
+  | .commentStartDash => [45]
+  | .lessThanSignBangDash => [45]
+  | .lessThanSignBangDashDash => [45, 45]
+  | .commentEndDash => [45]
+  | .commentEnd => [45, 45]
+  | .commentEndBang => [45, 45, 33]
+  | _ => []
+
+/-- What the tokenizer records for one byte: U+0000 becomes U+FFFD. -/
+def nulByte (b : UInt8) : Bytes := if b = 0 then [0xEF, 0xBF, 0xBD] else [b]
+
+/-- The comment data a WHATWG tokenizer reports for the text `t`. -/
+def nulMap (t : Bytes) : Bytes := t.flatMap nulByte
+
+theorem consume_data (st : State) (data : Bytes) (b : UInt8) :
+    ∃ d, consume st data b = some (next st b, d) ∧
+      (∀ q1, next st b = some q1 → d ++ pend q1 = data ++ pend st ++ nulByte b) ∧
+      (next st b = none → d = data) := by
+  by_cases h45 : b = 45
+  · subst h45; cases st <;> exact ⟨_, rfl, by simp [next, pend, nulByte], by simp [next]⟩
+  by_cases h62 : b = 62
+  · subst h62; cases st <;> exact ⟨_, rfl, by simp [next, pend, nulByte], by simp [next]⟩
+  by_cases h60 : b = 60
+  · subst h60; cases st <;> exact ⟨_, rfl, by simp [next, pend, nulByte], by simp [next]⟩
+  by_cases h33 : b = 33
+  · subst h33; cases st <;> exact ⟨_, rfl, by simp [next, pend, nulByte], by simp [next]⟩
+  by_cases h0 : b = 0
+  · subst h0; cases st <;> exact ⟨_, rfl, by simp [next, pend, nulByte], by simp [next]⟩
+  cases st <;> simp [consume, consumeFuel, step, next, pend, nulByte, h45, h62, h60, h33, h0]
+
+theorem run_cons (st : State) (data : Bytes) (b : UInt8) (rest : Bytes) :
+    run st data (b :: rest) =
+      match consume st data b with
+      | none => none
+      | some (none, d) => some (d, 1)
+      | some (some st', d) => (run st' d rest).map fun (d', n) => (d', n + 1) := by
+  rw [run]; rfl
+
+/-- Data recorded after consuming a whole prefix without closing the comment. -/
+theorem run_data : ∀ (p : Bytes) (st q : State) (data r : Bytes), after st p = some q →
+    ∃ d, d ++ pend q = data ++ pend st ++ nulMap p ∧
+      run st data (p ++ r) = (run q d r).map fun (d', n) => (d', n + p.length)
+  | [], st, q, data, r, h => by
+    simp only [after, Option.some.injEq] at h
+    subst h
+    refine ⟨data, by simp [nulMap], ?_⟩
+    cases hrun : run st data r <;> simp [hrun]
+  | b :: p, st, q, data, r, h => by
+    simp only [after] at h
+    obtain ⟨d1, hc, hd1, _⟩ := consume_data st data b
+    cases hn : next st b with
+    | none => rw [hn] at h; cases h
+    | some s =>
+      rw [hn] at h hc
+      simp only [Option.bind_some] at h
+      obtain ⟨d, hd, hr⟩ := run_data p s q d1 r h
+      refine ⟨d, ?_, ?_⟩
+      · rw [hd, hd1 s hn]; simp [nulMap, List.append_assoc]
+      · simp only [List.cons_append]
+        rw [run_cons, hc]
+        simp only
+        rw [hr]
+        cases run q d r <;> simp [Nat.add_assoc]
+
+theorem close_from (q : State) :
+    ∃ q1 q2, next q 45 = some q1 ∧ next q1 45 = some q2 ∧ pend q2 = [45, 45] ∧ next q2 62 = none := by
+  cases q <;> simp [next, pend]
+
+/-- Sufficiency with data: the token emitted at the final `-->` carries exactly the text
+(U+0000 recorded as U+FFFD). -/
+theorem run_of_accepted {t : Bytes} (h : AcceptedRef t) (r : Bytes) :
+    run .commentStart [] (t ++ [45, 45, 62] ++ r) = some (nulMap t, t.length + 3) := by
+  obtain ⟨q, hq⟩ := after_of_accepted t [] .commentStart rfl (by simpa using h)
+  obtain ⟨q1, q2, h1, h2, hp2, h3⟩ := close_from q
+  have hafter : after .commentStart (t ++ [45, 45]) = some q2 := by
+    rw [after_append, hq]; simp [after, h1, h2]
+  obtain ⟨d, hd, hr⟩ := run_data (t ++ [45, 45]) .commentStart q2 [] (62 :: r) hafter
+  have hd' : d = nulMap t := by
+    rw [hp2] at hd
+    simp only [pend, List.nil_append, nulMap, List.flatMap_append] at hd
+    have : List.flatMap nulByte [45, 45] = [45, 45] := by decide
+    rw [this] at hd
+    exact List.append_cancel_right hd
+  obtain ⟨d3, hc3, _, hd3⟩ := consume_data q2 d 62
+  rw [h3] at hc3
+  have e : t ++ [45, 45, 62] ++ r = t ++ [45, 45] ++ 62 :: r := by simp
+  have hrun : run q2 d (62 :: r) = some (d, 1) := by
+    rw [run_cons, hc3, hd3 h3]
+  rw [e, hr, hrun, hd']
+  simp only [Option.map_some, List.length_append, List.length_cons, List.length_nil]
+  congr 2; omega
+
+end LolHtml.Lemmas.EscComment
